@@ -1,0 +1,27 @@
+//go:build verif
+
+package server
+
+// VerifHook, when set, is called at the points of the prefork master where its
+// goroutines hand bookkeeping events to each other (build tag "verif" only): a
+// verification harness blocks there to decide which event the master's loop
+// sees next.
+var VerifHook func(point string, zns *ZnPMServer, arg int)
+
+func verifPoint(point string, zns *ZnPMServer, arg int) {
+	if VerifHook != nil {
+		VerifHook(point, zns, arg)
+	}
+}
+
+// VerifSnapshot returns the master's own view of its pool: number of registered
+// children, the reserved process count, and the state of every child.  It must
+// only be called from the bookkeeping goroutine (i.e. inside a "loop-done",
+// "batch-start" or "respawn-start" hook).
+func (zns *ZnPMServer) VerifSnapshot() (live int, refCount int, states map[int]uint8) {
+	states = map[int]uint8{}
+	for pid, w := range zns.childs {
+		states[pid] = w.state
+	}
+	return len(zns.childs), zns.refCount, states
+}
